@@ -171,12 +171,19 @@ def generate(seed, tier):
         opts = gen_opts(r, dumper.startswith('C'))
         case['values'] = [values.hash_order_free(v, opts.get('sort_keys', True)) for v in case['values']]
         case.update(api=api, dumper=dumper, opts=opts,
-                    stream={'kind': r.choice(['text', 'binary', 'text', 'binary', 'none']), 'flush': r.random() < 0.7},
+                    stream={'kind': r.choice(['text', 'binary', 'text', 'binary', 'none', 'none', 'bytesio', 'stringio']), 'flush': r.random() < 0.7},
                     encoding=r.choice([None, None, 'utf-8', 'utf-16-le', 'utf-16-be']) if not case.get('point_cap') else r.choice(['utf-8', 'utf-8', 'utf-16-le']),
                     gen_docs=r.random() < 0.5)
         if api in ('dump', 'safe_dump', 'serialize'):
             case['values'] = case['values'][:1]
             case['gen_docs'] = False
+        # genuine io objects (what open(path, 'wb') / io.StringIO() give): they cannot be made to fail, the faults come
+        # from the callbacks and the documents iterator; what matters is the state the caller's stream is left in
+        if case['stream']['kind'] == 'bytesio':
+            case['encoding'] = r.choice(['utf-8', 'utf-8', 'UTF-8', 'utf8', 'utf-16-le'])
+        elif case['stream']['kind'] == 'stringio':
+            case['encoding'] = None
+        case['path_resolvers'] = r.random() < 0.25
         case['special'] = bool(case['special'] and case['custom'] and api in ('dump', 'dump_all') and not dumper.endswith('BaseDumper'))
         return case
     case['values'] = [values.hash_order_free(v) for v in case['values']]
@@ -200,6 +207,11 @@ def generate(seed, tier):
     else:
         sched = {'sizes': [], 'then': None}
     case.update(api=api, loader=loader, form=form, sizes=sched['sizes'], then=sched['then'], min_piece=1)
+    case['path_resolvers'] = api not in WRAP_LOAD and r.random() < 0.25
+    if api not in WRAP_LOAD and case.get('text') is None and not loader.endswith('BaseLoader') and r.random() < 0.08:
+        # one Loader object driven document by document over a long stream in which a user constructor fails every time
+        # (a broken plug-in; the consumer skips such records and carries on)
+        case.update(api='obj_stream', custom=True, ndocs=r.choice([30, 45, 60, 80]), nest=r.choice([1, 2, 4, 6, 9]), special=False)
     case['special'] = bool(case['special'] and case['custom'] and not loader.endswith('BaseLoader'))
     return case
 
@@ -264,7 +276,8 @@ def make_world(yaml, case):
     con_pt = con_pt_gen if case.get('gen_callback') else con_pt_plain
 
     def mcon(loader, suffix, node):
-        world['plan'].hit('cb')
+        if not getattr(world['plan'], 'leaf_only', False):
+            world['plan'].hit('cb')
         if isinstance(node, yaml.ScalarNode):
             return [suffix, loader.construct_scalar(node)]
         if isinstance(node, yaml.SequenceNode):
@@ -279,6 +292,8 @@ def make_world(yaml, case):
             D.add_multi_representer(Pt, rep_pt)
         else:
             D.add_representer(Pt, rep_pt)
+        if case.get('path_resolvers'):
+            add_path_resolvers(D)
         world['Dumper'] = D
     if case['side'] == 'load':
         base = getattr(yaml, case['loader'])
@@ -288,6 +303,8 @@ def make_world(yaml, case):
         else:
             L.add_constructor('!pt', con_pt)
         L.add_multi_constructor('!m/', mcon)
+        if case.get('path_resolvers'):
+            add_path_resolvers(L)
         world['Loader'] = L
     # caller-owned special methods are failure points too: __hash__ of a key object a user constructor returned,
     # __getstate__ / __setstate__ of a YAMLObject subclass
@@ -318,6 +335,15 @@ def make_world(yaml, case):
         if 'Loader' in world:
             world['Loader'].add_constructor('!pk', lambda loader, node: PKey(loader.construct_scalar(node)))
     return world
+
+
+def add_path_resolvers(cls):
+    """Path resolvers that resolve to the standard tags (so that every document still loads / dumps): what they change is
+    that the descend / ascend bookkeeping around every node is no longer idle."""
+    cls.add_path_resolver('tag:yaml.org,2002:seq', [None], list)
+    cls.add_path_resolver('tag:yaml.org,2002:map', [0], dict)
+    cls.add_path_resolver('tag:yaml.org,2002:str', [None, 'note'], str)
+    cls.add_path_resolver('tag:yaml.org,2002:seq', [1, None, (list, None)], list)
 
 
 def c_needed(case):
@@ -367,6 +393,10 @@ def run_once(yaml, case, world, payload, faults, sticky=False):
         w = SimWriter('text' if to_none else case['stream']['kind'], case['stream']['flush'], fault=wfault[0] if wfault else None,
                       log=log, sticky=sticky)
         ws = None if to_none else w
+        real_io = None
+        if case['stream']['kind'] in ('bytesio', 'stringio'):
+            import io
+            real_io = ws = io.BytesIO() if case['stream']['kind'] == 'bytesio' else io.StringIO()
         returned = None
         api = case['api']
         opts = dict(case['opts'])
@@ -404,7 +434,22 @@ def run_once(yaml, case, world, payload, faults, sticky=False):
             raise
         except BaseException as exc:
             obs['exc'] = exc
-        obs['written'] = w.value() if not to_none else (returned if returned is not None else ('' if not case['encoding'] or case['api'] == 'emit' else b''))
+        if real_io is not None:
+            if obs['exc'] is not None:
+                # what happens when the caller lets go of the exception: the frames it refers to are released
+                import traceback
+                try:
+                    traceback.clear_frames(obs['exc'].__traceback__)
+                except RuntimeError:
+                    pass
+            try:
+                obs['written'] = real_io.getvalue()
+            except ValueError as exc2:
+                obs['written'] = None
+                obs['stream_closed'] = str(exc2)
+            del ws
+        else:
+            obs['written'] = w.value() if not to_none else (returned if returned is not None else ('' if not case['encoding'] or case['api'] == 'emit' else b''))
         obs['n_w'] = w.calls
         obs['wlog'] = [(e[1], e[4]) for e in log]
     else:
@@ -495,6 +540,121 @@ def enumerate_points(case, ref, seed_salt):
     return pts, sampled
 
 
+class PersistentPlan(Plan):
+    """The callback fails at every invocation whose index the pattern selects, each time with a fresh instance."""
+
+    leaf_only = True      # the enclosing multi-constructors (which build their children at once, deep=True) work; the leaf fails
+
+    def __init__(self, pattern, salt):
+        Plan.__init__(self)
+        self.pattern, self.salt, self.injected = pattern, salt, []
+
+    def hit(self, channel):
+        i = self.counts[channel]
+        self.counts[channel] = i + 1
+        sel = self.pattern == 'all' or (self.pattern == 'odd' and i % 2) or (self.pattern == 'first' and i < 40)
+        if channel == 'cb' and sel:
+            kind = EXC_KINDS[kernel.H(self.salt, 'persist', i) % len(EXC_KINDS)]
+            exc = make_exc(kind, 'persistent#%d' % i)
+            self.injected.append(exc)
+            self.fired.append((channel, i))
+            raise exc
+
+
+def objstream_text(case):
+    import random
+    rr = random.Random(kernel.H(case['salt'], 'objstream'))
+    docs = []
+    for i in range(case['ndocs']):
+        if rr.random() < 0.7:
+            inner = '!pt {x: %d, y: %d}' % (i, i + 1)
+            for d in range(case['nest']):
+                # alternately plain collections (built in two steps) and collections of a user constructor that builds
+                # its children at once (deep=True)
+                inner = [('[%s]' % inner), ('!m/g [%s]' % inner), ('{k: %s}' % inner), ('!m/h {k: %s}' % inner)][(d + i) % 4]
+            docs.append('--- [n%d, %s]\n' % (i, inner))
+        else:
+            docs.append('--- {n: %d, ok: [1, 2, {deep: [x, y]}], note: text}\n' % i)
+    return ''.join(docs)
+
+
+def drive_objstream(yaml, case, world, plan):
+    """Loader(stream); while check_data(): get_data() - the consumer skips a record whose construction failed."""
+    world['plan'] = plan
+    text = objstream_text(case)
+    form = case['form']
+    data = text if form == 'text' else (text.encode('utf-8') if form == 'utf8' else b'\xff\xfe' + text.encode('utf-16-le'))
+    floor = piece_floor(len(data))
+    then = max(case.get('then') or 4096, floor)
+    loader = world['Loader'](SimReader(data, [], then))
+    results = []
+    try:
+        while len(results) < 2000:
+            try:
+                if not loader.check_data():
+                    break
+                results.append(['item', observe.value(loader.get_data())])
+            except kernel.Hang:
+                raise
+            except BaseException as exc:
+                results.append(['exc', exc])
+                if isinstance(exc, yaml.YAMLError) and not isinstance(exc, yaml.constructor.ConstructorError) and \
+                        not any(exc is e for e in getattr(plan, 'injected', ())):
+                    break       # a scanner / parser / composer error of the library's own: the stream cannot be continued
+    finally:
+        loader.dispose()
+    return results
+
+
+def execute_objstream(yaml, case, out):
+    world = make_world(yaml, case)
+    gs0 = observe.global_state()
+    ref = drive_objstream(yaml, case, world, Plan())
+    out['evals'] += 1
+    bad = [r for r in ref if r[0] != 'item']
+    if bad or len(ref) != case['ndocs']:
+        out['extra']['objstream_reference_not_clean'] = 1
+        out['log'] = 'objstream-ref-' + (type(bad[0][1]).__name__ if bad else 'short')
+        return out
+    pattern = ['all', 'all', 'odd', 'first'][case['salt'] % 4]
+    plan = PersistentPlan(pattern, case['salt'])
+    got = drive_objstream(yaml, case, world, plan)
+    out['evals'] += 1
+    out['faults']['persistent-callback-fault:' + pattern] = len(plan.injected)
+    out['probes']['object_api_documents_after_a_failed_one'] = sum(1 for i, r in enumerate(got) if any(q[0] == 'exc' for q in got[:i]))
+    v = None
+    injected = list(plan.injected)
+    if len(got) != len(ref):
+        v = {'class': 'stream-ends-early-after-callback-faults', 'detail': {'documents': len(got), 'reference': len(ref),
+             'last': repr(got[-1][1])[:300] if got else None}}
+    else:
+        k = 0
+        for j, (g, r) in enumerate(zip(got, ref)):
+            if g[0] == 'exc':
+                if k < len(injected) and g[1] is injected[k]:
+                    k += 1
+                    continue
+                v = {'class': 'exception-replaced', 'detail': {'document': j, 'got': exc_summary(yaml, g[1]), 'failures_before': k,
+                                                               'expected': repr(injected[k])[:200] if k < len(injected) else 'no failure planned for this document'}}
+                break
+            if g != r:
+                v = {'class': 'document-differs-after-callback-faults', 'detail': {'document': j, 'failures_before': k}}
+                break
+    if v is None:
+        again = drive_objstream(yaml, case, world, Plan())
+        out['evals'] += 1
+        if again != ref:
+            v = {'class': 'follow-up-differs', 'detail': {'after': 'object-API stream with %d callback failures' % len(injected)}}
+    if v is None and observe.global_state() != gs0:
+        v = {'class': 'global-state-changed', 'detail': {'changed': observe.state_diff(gs0, observe.global_state())[:20]}}
+    if v:
+        out['violations'].append(v)
+    out['sigs'].append(observe.digest([case['salt'], 'objstream', pattern]))
+    out['log'] = observe.digest([[g[0], g[1] if g[0] == 'item' else type(g[1]).__name__] for g in got])
+    out['sample'] = dict(describe(case), ndocs=case['ndocs'], failures=len(injected))
+    return out
+
+
 def execute(case):
     import yaml
     out = {'violations': [], 'evals': 0, 'probes': {}, 'faults': {}, 'sigs': [], 'extra': {}}
@@ -502,6 +662,8 @@ def execute(case):
         out['extra']['c_backend_not_run'] = 1
         out['log'] = 'no-c'
         return out
+    if case.get('api') == 'obj_stream':
+        return execute_objstream(yaml, case, out)
     world = make_world(yaml, case)
     try:
         payload = prepare_payload(yaml, case, world)
@@ -593,6 +755,8 @@ def execute(case):
             return {'class': 'exception-decorated', 'detail': dict(where, cause=repr(exc.__cause__), notes=getattr(exc, '__notes__', None))}
         if case['side'] == 'dump':
             wr = res['written']
+            if res.get('stream_closed'):
+                return {'class': 'caller-stream-closed-after-fault', 'detail': dict(where, error=res['stream_closed'])}
             if type(wr) is not type(ref_out) and wr:
                 return {'class': 'written-type-differs', 'detail': where}
             if wr and not ref_out.startswith(wr):
